@@ -36,8 +36,7 @@ ANCHOR_FILES = ['src/TotalDepth/LAS/core/LASRead.py', 'src/TotalDepth/common/Log
 
 # Repaired in /repo (fix: commits): declared NULL ignored, single-curve wrapped files refused, values of a curve named
 # like a column index stored in the wrong channel.  These classes are still generated; a failure there is UNLISTED.
-# What remains open: mnemonics/units that look like a number or yes/no are returned retyped (int/float/bool).
-F_RETYPED = 'C09-numeric-looking-mnemonic-retyped'
+# Also repaired: mnemonics/units that look like a number or yes/no are names and are returned as the text written.
 
 
 def _impl():
@@ -194,17 +193,6 @@ def oracle(ctx, LR, content, text, case, res=None):
     return True
 
 
-def _retype(text):
-    """Independent reference for what string_to_value does to a field (used only to delimit the open finding)."""
-    for f in (int, float):
-        try:
-            return _cv(f(text))
-        except ValueError:
-            pass
-    t = text.strip()
-    return ['b', 1] if t.lower() == 'yes' else ['b', 0] if t.lower() == 'no' else ['t', t]
-
-
 def oracle_zero_null(ctx, LR, content, text, case, res=None):
     """Like `oracle`, for a NULL line whose value text is a spelling of zero that the content model cannot print
     (`-0.0`, `0E0`): the NULL line's own value is compared by value (zero, int or float), everything else exactly."""
@@ -219,8 +207,8 @@ def oracle_zero_null(ctx, LR, content, text, case, res=None):
 
 
 def oracle_numeric_mnemonic(ctx, LR, content, text, case):
-    """Mnemonics/units that look like a number or yes/no: the data values and everything else must be as written
-    (unlisted failure otherwise); the retyped mnemonic/unit itself is the open finding F_RETYPED."""
+    """Mnemonics/units that look like a number or yes/no (repaired class: they are names and come back as the text
+    written): everything must be as written, any difference is an unlisted failure."""
     from gen import las as G
     ctx.count('oracle_cases')
     got, las = impl_parse(LR, text)
@@ -231,13 +219,7 @@ def oracle_numeric_mnemonic(ctx, LR, content, text, case):
     if 'err' in got or got['array'] is None or got['array']['frames'] != want['array']['frames']:
         ctx.fail(case, 'data values of a curve with a number-like mnemonic are not the ones written: ' + _diff(got, want))
         return False
-    retyped = {'sections': [[t, [m if m[0] == 'R' else ['L', _retype(m[1][1]), _retype(m[2][1]), m[3], m[4]] for m in ms]]
-                            for t, ms in want['sections']],
-               'array': dict(want['array'], names=[[_retype(n[0][1]), _retype(n[1][1])] for n in want['array']['names']])}
-    if got == retyped:
-        ctx.fail(case, 'mnemonic/unit returned retyped by string_to_value: ' + _diff(got, want), finding=F_RETYPED)
-    else:
-        ctx.fail(case, 'reader result differs from the written content beyond the retyped mnemonic/unit: ' + _diff(got, retyped))
+    ctx.fail(case, 'a number-like mnemonic/unit is not returned as the text written: ' + _diff(got, want))
     return False
 
 
@@ -499,8 +481,8 @@ def run(ctx):
     for s, r in zip(gl, reps):
         ctx.corr('generate_lines', {'op': 'lines', 's': s}, [ln for _, ln in LR.generate_lines(io.StringIO(s))],
                  [bytes.fromhex(x).decode('ascii') for x in json.loads(r)])
-    ctx.note('open finding: mnemonics/units that look like a number or yes/no are returned retyped (notes/C09.md); the repaired '
-             'classes (declared NULL, single-curve wrapped, curve named like a column index) are generated on every run')
+    ctx.note('no open finding; the repaired classes (declared NULL, single-curve wrapped, curve named like a column index, '
+             'number-like mnemonics/units) are generated on every run')
 
 
 def replay(ctx, rec):
